@@ -208,8 +208,6 @@ impl<T> Queue<T> {
                 (head as usize | (1 << 63)) as *mut BlockNode<T>
             };
 
-            let block = unsafe { &mut *block };
-
             // commit the pop
             match self.head.0.compare_exchange_weak(
                 head,
@@ -218,6 +216,9 @@ impl<T> Queue<T> {
                 Ordering::Acquire,
             ) {
                 Ok(_) => {
+                    // only deref the block after the slot is claimed: a stale head
+                    // may point to a block that is already freed
+                    let block = unsafe { &mut *block };
                     let block_start = block.start.load(Ordering::Relaxed);
                     let pop_index = block_start + id;
                     if id == BLOCK_MASK {
@@ -278,8 +279,6 @@ impl<T> Queue<T> {
                 (head as usize | (1 << 63)) as *mut BlockNode<T>
             };
 
-            let block = unsafe { &mut *block };
-
             // commit the pop
             match self.head.0.compare_exchange_weak(
                 head,
@@ -288,6 +287,9 @@ impl<T> Queue<T> {
                 Ordering::Acquire,
             ) {
                 Ok(_) => {
+                    // only deref the block after the slot is claimed: a stale head
+                    // may point to a block that is already freed
+                    let block = unsafe { &mut *block };
                     let block_start = block.start.load(Ordering::Relaxed);
                     let pop_index = block_start + id;
                     if id == BLOCK_MASK {
@@ -355,7 +357,6 @@ impl<T> Queue<T> {
                 BlockPtr::pack(block, new_id)
             };
 
-            let block = unsafe { &mut *block };
             // only pop within a block
             match self.head.0.compare_exchange_weak(
                 head,
@@ -364,6 +365,9 @@ impl<T> Queue<T> {
                 Ordering::Acquire,
             ) {
                 Ok(_) => {
+                    // only deref the block after the slots are claimed: a stale head
+                    // may point to a block that is already freed
+                    let block = unsafe { &mut *block };
                     let block_start = block.start.load(Ordering::Relaxed);
                     let pop_index = block_start + id;
 
